@@ -177,5 +177,19 @@ def run(E: Engine, rep: Report, tier: str) -> dict:
                             n_div += 1
                             consts = [a.value for a in d.args if isinstance(a, ast.Constant) and isinstance(a.value, (int, float))]
                             rep.check(any(k > 0 for k in consts), "DIV0", f"{f.short}|{norm(d)}", "denominator bounded away from zero by max(..., c>0)", f"`{norm(d)}` can be zero", E.where(f, n))
+    # the same invariant for waveform *users* in pulse.py / waveforms.py: (<waveform>.duration - c) with c >= 1
+    for f in P.all_functions():
+        if f.module.name not in ("pulser.pulse", WF) or (f.cls is not None and (f.cls is base or f.cls in subs)):
+            continue
+        ab = None
+        for n in own_nodes(f):
+            if isinstance(n, ast.BinOp) and isinstance(n.op, (ast.Div, ast.FloorDiv, ast.Mod)):
+                d = n.right
+                if isinstance(d, ast.BinOp) and isinstance(d.op, ast.Sub) and isinstance(d.left, ast.Attribute) and d.left.attr in ("duration", "_duration") and isinstance(d.right, ast.Constant) and isinstance(d.right.value, (int, float)) and d.right.value >= 1:
+                    n_div += 1
+                    ab = ab or abstractor(E.flow(f))
+                    dnf = ab.enclosing_conditions(n)
+                    guarded = dnf != [[]] and all(any(l.atom is not None and l.atom.rel in ("Gt", "GtE", "NotEq") and norm(d.left) in l.text for l in conj_) for conj_ in dnf)
+                    rep.check(guarded, "DIV0", f"{f.short}|{norm(d)}", "denominator guarded against zero", f"`{norm(n)[:80]}`: {norm(d)} is 0 for a waveform of {d.right.value} sample(s) (durations >= 1 are valid): the result becomes NaN/inf", E.where(f, n))
     rep.floor("DIV0", 1)
     return {"waveform_classes": n_cls, "denominators_checked": n_div}
